@@ -82,16 +82,48 @@ func (t *Term) String() string {
 	case "err":
 		return "err:" + t.Aux
 	}
-	s := t.Op
-	if t.Aux != "" {
-		s += ":" + t.Aux
+	short := func(a string) string {
+		if i := strings.LastIndex(a, "/"); i >= 0 {
+			return a[i+1:]
+		}
+		return a
 	}
-	if len(t.Args) > 0 {
+	switch t.Op {
+	case "loopcur":
+		return "cur@" + short(t.Aux)
+	case "loopall":
+		return "all@" + short(t.Aux)
+	case "nomark":
+		return ""
+	case "loopvar":
+		return t.Aux + "[" + t.Args[0].String() + "]"
+	case "elem":
+		return t.Args[0].String() + "[" + t.Args[1].String() + "]"
+	case "draw":
+		return "draw(" + t.Args[0].String() + " @" + t.Args[1].String() + ")"
+	case "site":
+		return ""
+	case "pathjoin":
 		var as []string
 		for _, a := range t.Args {
 			as = append(as, a.String())
 		}
-		s += "(" + strings.Join(as, ", ") + ")"
+		return strings.Join(as, "/")
+	}
+	s := t.Op
+	if t.Aux != "" {
+		s += ":" + short(t.Aux)
+	}
+	if len(t.Args) > 0 {
+		var as []string
+		for _, a := range t.Args {
+			if r := a.String(); r != "" {
+				as = append(as, r)
+			}
+		}
+		if len(as) > 0 {
+			s += "(" + strings.Join(as, ", ") + ")"
+		}
 	}
 	return s
 }
